@@ -31,7 +31,9 @@ Added by the seeding rounds - C18.1 the rows inserted are the batch itself
 snapshot is created before any delete; C18.2 the scheduled listing is the
 whole unfiltered listing and the expiry test is per event; C18.4 the history
 prune slice keeps its guard; C18.5 download column and filter are inserted
-columns, whatever the placeholder style.
+columns, whatever the placeholder style. Fourth round: C18.2 the daemon drives
+each archiver with its own options; C18.5 the snapshot reader searches every
+snapshot.
 Does NOT decide retrievability from the produced snapshot nor every crash cut
 beyond the upload-before-delete ordering.
 """
